@@ -115,7 +115,7 @@ class Profile:
     def __init__(self, doc=None, p_doc_mostly=False, max_items=8, depth=3, kinds=None, body_max=4,
                  dangling=True, classes=True, tests=True, groups=True, moddoc=True, parseargs=True,
                  moddoc_indent=None, set_values=None, option_help=None, weights=None, generic_cmds=None,
-                 arg_pool=None, group_depth=2, max_args=4, min_items=0, impl_doc=False, nest_all=False, dups=False):
+                 arg_pool=None, group_depth=2, max_args=4, min_items=0, impl_doc=False, nest_all=False, dups=False, dup_classes=False):
         self.doc = doc if doc is not None else benign_doc()
         self.p_doc_mostly = p_doc_mostly
         self.max_items = max_items
@@ -140,6 +140,7 @@ class Profile:
         self.impl_doc = impl_doc          # implementing definitions may carry a doccomment of their own
         self.nest_all = nest_all          # tests and classes may also sit inside function/macro bodies
         self.dups = dups                  # some items re-use the name of the previous item of their kind
+        self.dup_classes = dup_classes    # ... classes too (same name and bases, undocumented)
 
     def mdoc(self):
         return maybe(self.doc, 0.2 if self.p_doc_mostly else 0.5)
@@ -223,7 +224,7 @@ def item(p, depth, ctx):
     if p.dangling and want("dangling"):
         alts.append(st.fixed_dictionaries({"k": st.just("dangling"), "doc": p.doc}))
     if p.dups:
-        alts = [a if _kind_of(a) in (None, "generic", "block", "parseargs", "dangling", "class") else
+        alts = [a if _kind_of(a) in (None, "generic", "block", "parseargs", "dangling") + (() if p.dup_classes else ("class",)) else
                 st.tuples(a, st.sampled_from([True] + [False] * (7 if p.dups is True else int(p.dups)))).map(_with_dup) for a in alts]
     if p.weights:
         # alternatives are dict strategies with a fixed "k"; repeat them by weight (0 drops the kind here)
@@ -420,8 +421,11 @@ def _fin_items(lst, c, in_body):
         elif k == "parseargs":
             it["args"] = _num(it["args"], c)
         elif k == "class":
-            it["name"] = _num(it["name"], c)
+            it["name"] = _dup_name(c, "class", _num(it["name"], c), dup)
             it["bases"] = _num(it["bases"], c)
+            if dup and c.last.get("class-bases") is not None:
+                it["bases"], it["doc"] = list(c.last["class-bases"]), None      # a class declared again: same name and bases
+            c.last["class-bases"] = list(it["bases"])
             it["doc"] = _fin_doc(it["doc"], c)
             c.classes.append(it["name"])
             it["body"] = _fin_items(it["body"], c, True)
